@@ -623,6 +623,29 @@ func faults(args []string) int {
 			cases = append(cases, faultCase{b.ci, dir, pos, kind, rng.Intn(1 << 30)})
 		}
 	}
+	// Decisive region of streaming sessions: the tail of the garbler->evaluator
+	// stream holds the list of result wire ids (OpReturn) that the evaluator
+	// uses to pick the labels it returns; every byte of it gets bit flips of
+	// the low bits (all 8 bits in the thorough tier).
+	for _, b := range bases {
+		if b.ss == nil {
+			continue
+		}
+		lo := b.ab - (4*b.ss.outBits + 16)
+		if lo < 0 {
+			lo = 0
+		}
+		nb := 3
+		if cf.Tier == "thorough" {
+			nb = 8
+		}
+		for pos := lo; pos < b.ab; pos++ {
+			for bit := 0; bit < nb; bit++ {
+				cases = append(cases, faultCase{b.ci, 0, pos, "bit", bit})
+				o.Count("decisive_stream_return_ids_cases")
+			}
+		}
+	}
 	// one child process per case, 32 at a time
 	results := map[string]string{}
 	self, _ := os.Executable()
